@@ -859,6 +859,9 @@ func (e *Executor) Execute(ctx context.Context, m File) (err error) {
 			}
 		}
 	}
+	// The statements not yet applied may have changed since the
+	// last attempt, keep the total in sync with the file content.
+	r.Total = len(stmts)
 	e.log.Log(LogFile{m, r.Version, r.Description, r.Applied})
 	if err := e.fileChecks(ctx, m, r); err != nil {
 		e.log.Log(LogError{Error: err})
